@@ -225,12 +225,12 @@ def bandlimited_rms(r, psd, wllow=None, wlhigh=None, flow=None, fhigh=None):
     if wllow is not None or wlhigh is not None:
         # spatial period given
         if wllow is None:
-            flow = 0
+            fhigh = default_max
         else:
             fhigh = 1 / wllow
 
         if wlhigh is None:
-            fhigh = default_max
+            flow = 0
         else:
             flow = 1 / wlhigh
     elif flow is not None or fhigh is not None:
@@ -1013,7 +1013,7 @@ class Interferogram(RichData):
         # 1000/L vs 1/L, um to mm
         upper_limit = 1000 / wavelength
         kernel = 4 * np.pi * np.cos(np.radians(incident_angle))
-        kernel *= self.bandlimited_rms(upper_limit, None) / wavelength
+        kernel *= self.bandlimited_rms(flow=0, fhigh=upper_limit) / wavelength
         return 1 - np.exp(-kernel**2)
 
     def slope(self):
